@@ -35,7 +35,13 @@ class Stand:
             return fn(*a, **k)
         except Exception as e:
             tb = traceback.extract_tb(e.__traceback__)
-            inner = tb[-1].filename if tb else ''
+            # innermost frame that belongs either to the code under test or to the harness (frames of numpy / pandas / pymatgen below it are
+            # library code called by one of the two): an exception that surfaces from the code under test is a violation, one from the harness
+            # itself a checker error
+            own = [fr for fr in tb if '/src/gemdat/' in fr.filename or '/verif/verif/' in fr.filename]
+            inner = own[-1].filename if own else (tb[-1].filename if tb else '')
+            if own:
+                tb = tb[:tb.index(own[-1]) + 1]
             if '/src/gemdat/' in inner:
                 # the exception was raised by the code under test on an input of the stated family: a violation, with replay
                 inp = a[0] if a and isinstance(a[0], dict) else None
